@@ -307,8 +307,10 @@ func checkC05(c CaseC05, info *Info) *Failure {
 			}
 			info.Class("e: valid output")
 		} else {
-			if err0 == nil && tokenizes(x0) == nil {
-				return failf("spurious-validity-error", "enc %d root %q value %s: %q tokenizes but the check reported %v", c.Enc, c.Root, canon(c.Value), x0, err)
+			// (text that tokenizes but has several roots, or text outside the root, is not a well-formed document: an
+			// error for it is what the property allows)
+			if err0 == nil && wellFormedSingleRoot(x0) == nil {
+				return failf("spurious-validity-error", "enc %d root %q value %s: %q is a well-formed document but the check reported %v", c.Enc, c.Root, canon(c.Value), x0, err)
 			}
 			info.Class("e: error returned")
 		}
